@@ -336,6 +336,22 @@ pub fn c13(tier: Tier) -> PropSpec {
             Part::new("adf", tier.pick(15000, 150000), || sem_case(1, 6), c13_adf),
             // deep diagrams over 20..60 variables: depth gaps of 16..59 between the children of a node
             Part::new("deep", tier.pick(6000, 60000), deep_case, c13_deep),
+            // depths up to 100, around 64 favoured: counts that fit are exact, counts that do not fit saturate at the
+            // largest machine word (own depth-based count in u128); memoised model counts are not asked (default build)
+            Part::new("deep-saturating", tier.pick(6000, 60000), crate::props::features::probe_deep_case, |c: &crate::probe::ProbeCase, st: &mut Stats| {
+                let mut c = c.clone();
+                if let crate::probe::ProbeCase::Deep { fits_only, .. } = &mut c {
+                    *fits_only = true;
+                }
+                let c = &c;
+                let t = crate::probe::run(c, false)?;
+                if let crate::probe::ProbeCase::Deep { vars, .. } = c {
+                    let d = t["handles"].as_array().and_then(|h| h.iter().map(|x| x["depth"].as_u64().unwrap_or(0)).max()).unwrap_or(0);
+                    st.label(if d == 64 { "depth=64" } else if d > 64 { "depth>64" } else { "depth<64" });
+                    st.nontrivial(stable_hash(&serde_json::to_string(c).unwrap_or_default()), || json!({"vars": vars, "depth": d, "nodes": t["nodes"]}));
+                }
+                Ok(Outcome::Ok)
+            }),
             // the same queries under every cargo feature set (probe binaries of C12, op sequences only)
             Part::with_shrink(
                 "feature-lanes",
